@@ -79,7 +79,9 @@ CLAIMED = {
             "updateRectangle/updateDesktopSize/updateCursor; theorems: for every accepted history of updates, size changes and (nocursor) "
             "cursor updates from a fresh client the screen equals the reference canvas pixel for pixel and in size (induction over the "
             "history on a pointwise characterisation of paste), an update changes nothing outside its rectangle, a size change keeps what "
-            "fits, nocursor makes cursor updates the identity; the screen with a drawn cursor shape is decided by the campaign only; the "
+            "fits, nocursor makes cursor updates the identity; with a cursor shape drawn in (pseudocursor): the masked paste is characterised "
+            "pixel by pixel for any offset and the composition theorem is lifted to histories with cursor updates against a functional "
+            "reference canvas (latest colour, current cursor stamped over it after every update / cursor change; pointer fixed per run); the "
             "real client's screen is compared byte-exactly with the reference composition and with the model on random histories",
             "Pillow trusted and modelled; updates carry exactly w*h pixels",
             "Coq theorems over all histories (composition by induction) + differential correspondence of the model against the real client and the reference composition"),
